@@ -3,7 +3,8 @@ import CvssVerif.Model.Heap
 /-
   The write-set facts extracted from the library's source (go/effects, SSA-based, re-run on every
   check) against what the object-pool model assumes: an operation writes its receiver iff it is
-  `Decode`; nothing else writes through any parameter; no exported function writes — or hands out
+  `Decode`; nothing else writes through any parameter (`ExportWith` may consume the reader it is
+  given); no exported function writes — or hands out
   the address of — a package-level variable.  If the code changes so that a query starts writing
   (its receiver, an alias of it, a lazily filled table, a cache), the regenerated table changes
   and these theorems stop checking.
@@ -13,7 +14,10 @@ open CvssVerif Gen.Effects
 
 /-- the table row agrees with the model's `ObjOp.writes`: only `Decode` writes, and only its receiver -/
 def rowOk (r : Bytes × Bytes × List Nat × List Bytes) : Bool :=
-  r.2.2.1 == (if r.2.1 == b!"Decode" then [0] else []) && r.2.2.2.isEmpty
+  (if r.2.1 == b!"Decode" then r.2.2.1 == [0]
+   else if r.2.1 == b!"ExportWith" then r.2.2.1 == [] || r.2.2.1 == [1]   -- reading the template consumes the caller's io.Reader
+   else r.2.2.1 == [])
+  && r.2.2.2.isEmpty
 
 /-- the exported operations the model has as query / report / export operations -/
 def objTypes : List Bytes := [b!"Base", b!"Temporal", b!"Environmental"]
